@@ -372,6 +372,16 @@ func TestCheck(t *testing.T) {
 				r.Eval(fmt.Sprintf("codec|empty|%d|%d", len(spec.PublicKey), len(spec.CipherSuites)))
 				return
 			}
+			if spec.KEM == 0x0020 && len(spec.PublicKey) != 32 && len(spec.PublicKey) != 0 && len(spec.CipherSuites) != 0 && spec.Version == 0xfe0d && strictName(spec.PublicName) {
+				// an X25519 public key has 32 bytes: crypto/tls picks such a config and then fails the handshake
+				if err == nil {
+					r.Violate("codec", i, "codec:x25519-key-of-wrong-length-encoded", fmt.Sprintf("ConfigSpec.Bytes produced a DHKEM(X25519) config with a %d-byte public key", len(spec.PublicKey)), c)
+				} else {
+					r.Count("codec_refused_x25519_key_length", 1)
+				}
+				r.Eval(fmt.Sprintf("codec|keylen|%d", len(spec.PublicKey)))
+				return
+			}
 			if spec.Version != 0xfe0d {
 				// the only ECHConfig version there is: anything else is no config a client can use
 				if err == nil {
@@ -457,7 +467,7 @@ func TestCheck(t *testing.T) {
 				s.PublicKey = []byte{1}
 			}
 			b, err := s.Bytes()
-			if err != nil && (!strictName(s.PublicName) || len(s.PublicKey) == 0 || len(s.CipherSuites) == 0 || s.Version != 0xfe0d) {
+			if err != nil && (!strictName(s.PublicName) || len(s.PublicKey) == 0 || len(s.CipherSuites) == 0 || s.Version != 0xfe0d || s.KEM == 0x0020 && len(s.PublicKey) != 32) {
 				b, err = refEncode(s), nil // a foreign config: lists carry configs as opaque byte strings
 			}
 			if err != nil {
@@ -471,6 +481,16 @@ func TestCheck(t *testing.T) {
 		c := map[string]any{"n": n}
 		r.Guard("list", i, "list", c, func() {
 			enc, err := ech.ConfigList(cfgs)
+			if n == 0 {
+				// ECHConfigList<4..2^16-1>: there is no empty list, and crypto/tls refuses 00 00 ("contains no valid configs")
+				if err == nil {
+					r.Violate("list", i, "list:empty-list-encoded", fmt.Sprintf("ConfigList of no configs returned %x", enc), c)
+				} else {
+					r.Count("empty_lists_refused", 1)
+				}
+				r.Eval("list|0|refused")
+				return
+			}
 			if err != nil {
 				r.Violate("list", i, "list:error", err.Error(), c)
 				return
